@@ -40,6 +40,9 @@ type Billet struct {
 
 	root Node
 	mode TrieMode
+	// keepNodes makes traverse leave the visited nodes as they are: set when
+	// the nodes belong to a live Trie that may hold them in memory only.
+	keepNodes bool
 }
 
 // NewBillet returns a new billet for MPT trie restoring. It accepts a MemCachedStore
@@ -337,6 +340,9 @@ func (b *Billet) traverse(curr Node, path, from []byte, process func(pathToNode 
 }
 
 func (b *Billet) tryCollapseLeaf(curr *LeafNode) Node {
+	if b.keepNodes {
+		return curr
+	}
 	// Leaf can always be collapsed.
 	res := NewHashNode(curr.Hash())
 	res.Collapsed = true
@@ -344,7 +350,7 @@ func (b *Billet) tryCollapseLeaf(curr *LeafNode) Node {
 }
 
 func (b *Billet) tryCollapseExtension(curr *ExtensionNode) Node {
-	if curr.next.Type() != HashT || !curr.next.(*HashNode).Collapsed {
+	if b.keepNodes || curr.next.Type() != HashT || !curr.next.(*HashNode).Collapsed {
 		return curr
 	}
 	res := NewHashNode(curr.Hash())
@@ -353,7 +359,7 @@ func (b *Billet) tryCollapseExtension(curr *ExtensionNode) Node {
 }
 
 func (b *Billet) tryCollapseBranch(curr *BranchNode) Node {
-	canCollapse := true
+	canCollapse := !b.keepNodes
 	for i := range childrenCount {
 		if curr.Children[i].Type() == EmptyT {
 			continue
